@@ -165,10 +165,84 @@ func c07Body(gi gdbi.GraphInterface, stmts []*gripql.GraphStatement, bufsize int
 	}
 }
 
+// failingSink is a client that goes away: after `after` rows every Send fails and its context is cancelled.
+type failingSink struct {
+	rowSink
+	after  int
+	sent   int
+	ctx    context.Context
+	cancel context.CancelFunc
+}
+
+func (f *failingSink) Context() context.Context { return f.ctx }
+func (f *failingSink) Send(q *gripql.QueryResult) error {
+	if f.sent >= f.after {
+		f.cancel()
+		return fmt.Errorf("transport is closing")
+	}
+	f.sent++
+	return nil
+}
+
+// c07ServerBody drives the real GripServer.Traversal handler (compile, pipeline.Run, row conversion, Send
+// loop) over a star graph for a client that disconnects after `after` rows (after < 0: reads everything).
+func c07ServerBody(n int, stmts []*gripql.GraphStatement, after int) func() {
+	var db gdbi.GraphDB
+	{
+		// the graph is stored once, outside the scheduler; the executions only read it
+		db = kvgraph.NewKVGraph(memkv.New())
+		db.AddGraph("g")
+		gi, _ := db.Graph("g")
+		vsx := []*gdbi.Vertex{{ID: "h", Label: "H", Data: map[string]any{}, Loaded: true}}
+		var es []*gdbi.Edge
+		for i := 0; i < n; i++ {
+			l := fmt.Sprintf("l%d", i)
+			vsx = append(vsx, &gdbi.Vertex{ID: l, Label: "L", Data: map[string]any{}, Loaded: true})
+			es = append(es, &gdbi.Edge{ID: "e" + l, From: "h", To: l, Label: "x", Loaded: true})
+		}
+		gi.AddVertex(vsx)
+		if len(es) > 0 {
+			gi.AddEdge(es)
+		}
+	}
+	return func() {
+		srv := newServer(db)
+		ctx, cancel := context.WithCancel(context.Background())
+		sink := &failingSink{after: after, ctx: ctx, cancel: cancel}
+		if after < 0 {
+			sink.after = 1 << 30
+		}
+		err := srv.Traversal(&gripql.GraphQuery{Graph: "g", Query: stmts}, sink)
+		cancel()
+		vs.Obs(fmt.Sprintf("sent=%d failed=%v", sink.sent, err != nil))
+	}
+}
+
 func c07Scenarios(tier string) []schedScenario {
 	thorough := tier == "thorough"
 	var out []schedScenario
 	progs := c07Programs()
+	// the server's own handler with a client that goes away: whatever is still in flight must be drained or
+	// stopped, no goroutine may stay blocked behind the result channel (capacities scaled as in regime (a))
+	for _, q := range []struct {
+		name  string
+		stmts []*gripql.GraphStatement
+		rows  func(n int) int
+	}{
+		{"V().out()", gripql.V().Out().Statements, func(n int) int { return n }},
+		{"V().hasLabel(L).in()", gripql.V().HasLabel("L").In().Statements, func(n int) int { return n }},
+	} {
+		for _, n := range []int{3, 8, 17} {
+			for _, after := range []int{-1, 0, 1} {
+				sent := after
+				if after < 0 {
+					sent = q.rows(n)
+				}
+				out = append(out, schedScenario{Name: fmt.Sprintf("server.Traversal %s star(%d), client gone after %d rows", q.name, n, after), Class: "server-handler|" + q.name, Bound: 1, MaxExec: 1500, Budget: 40 * time.Second, CapMap: scaledCaps,
+					Body: c07ServerBody(n, q.stmts, after), Want: []string{fmt.Sprintf("sent=%d failed=%v", sent, after >= 0)}})
+			}
+		}
+	}
 	sizes := []int{0, 1, 2, 3, 5, 8, 12, 17}
 	if thorough {
 		sizes = []int{0, 1, 2, 3, 4, 5, 6, 8, 10, 12, 14, 17, 22}
